@@ -30,9 +30,34 @@ def C05():
     }
 
 
-PROPERTIES = {'C05': C05}
+def rt_native(unit):
+    seed = os.environ.get('VERIF_SEED', '0') or '0'
+    rules = {
+        'wb': 'operation sequences on families of 3 clones of the real WBTreeMap<u64> compared after every step with BTreeMap, plus the '
+              'introspection probe (order, cached sizes, weight balance, len, height bound): (A) all sequences of L ops over K keys, '
+              '(B) all insertion orders x removal orders, (C) union/difference of all pairs of key subsets with callbacks that record '
+              'their arguments, (D) seeded random long sequences; distinct by construction; non-trivial = at least 3 mutating ops / both operands non-empty',
+    }
+    return Native('rt_' + unit, 'rt/main.rs', quick_args=[unit, 'quick', seed], thorough_args=[unit, 'thorough', seed], rule=rules.get(unit, ''), timeout=3000)
 
-NATIVES = {'uf_0': lambda: uf_native(0), 'uf_1': lambda: uf_native(1)}
+
+def C14():
+    from units import wb
+    parts = [ProofPart(wb, 'WB', native=rt_native('wb'))]
+    return {
+        'level': 'proof', 'parts': parts, 'samples': wb.SAMPLES, 'always_native': True,
+        'assumptions': [
+            'assumed specifications of Rc::{as_ref, make_mut, unwrap_or_clone}, mem::replace, Option::map_or (exact std signatures)',
+            'derived Clone is structural and V::clone returns an equal value (persistence: an Rc<T> denotes an immutable value in Verus)',
+            'usize is 64 bit',
+            'Iter / IterMut (unsafe), iter_mut copy-on-write, and every function listed under extraction_drops are covered by the bounded native sweep only',
+        ],
+    }
+
+
+PROPERTIES = {'C05': C05, 'C14': C14}
+
+NATIVES = {'uf_0': lambda: uf_native(0), 'uf_1': lambda: uf_native(1), 'rt_wb': lambda: rt_native('wb'), 'rt_pt': lambda: rt_native('pt'), 'rt_ts': lambda: rt_native('ts')}
 
 
 def replay(pid, path):
